@@ -224,5 +224,8 @@ pub open spec fn no_indirection(bs: Seq<BatchV>) -> bool {
 }
 /// only the trees change during replay (and the keyspace id counter grows)
 pub open spec fn replay_frame(o: World, n: World) -> bool {
-    n == (World { trees: n.trees, next_ks_id: n.next_ks_id, ..o }) && n.next_ks_id >= o.next_ks_id && (forall|k: u64| #[trigger] n.trees.dom().contains(k) <==> o.trees.dom().contains(k))
+    n == (World { trees: n.trees, next_ks_id: n.next_ks_id, seqno: n.seqno, ..o }) && n.next_ks_id >= o.next_ks_id && n.seqno >= o.seqno && (forall|k: u64| #[trigger] n.trees.dom().contains(k) <==> o.trees.dom().contains(k))
 }
+/// C11: the seqno counter is above the seqno of every batch replayed from a journal -- whether or not the batch's keyspaces
+/// still hold that data (a cleared or deleted keyspace keeps its records in the journal). (ASSUMED: no journaled seqno is u64::MAX)
+pub open spec fn seqnos_below(bs: Seq<BatchV>, n: int, c: u64) -> bool { forall|i: int| 0 <= i < n ==> (#[trigger] bs[i]).seqno < u64::MAX ==> bs[i].seqno < c }
